@@ -56,7 +56,12 @@ pub fn main(args: &[String]) -> i32 {
             let comp = Value::Array(ev_comp.iter().filter(|e| e["form"] == "flat").map(|e| json!([e["ev"], e["op"].as_u64().unwrap_or(0) + 1, e["node"].as_u64().unwrap_or(0) + 1])).collect());
             let co = Flat::parse(text)?;
             let ev_co = events(&|| co.eval(&vals(&co)).map(|_| ()))?;
-            let de = Deep::parse(text)?;
+            exmex::verif::start_recording();
+            let de_r = Deep::parse(text);
+            let ev_deep: Vec<Value> = exmex::verif::take_events().iter().filter_map(|e| serde_json::from_str::<Value>(e).ok()).collect();
+            let de = de_r?;
+            let dcomp = Value::Array(ev_deep.iter().filter(|e| e["ev"] == "fold" && e["form"] == "deep")
+                .map(|e| json!([e["op"].as_u64().unwrap_or(0) + 1, e["node"].as_u64().unwrap_or(0) + 1])).collect());
             let dd: Value = serde_json::from_str(&de.verif_dump()).unwrap_or(json!({}));
             // printed text of the deep form; `@<n>` (Debug of a folded term / constant) is normalised to `@`
             let mut up = String::new();
@@ -69,14 +74,14 @@ pub fn main(args: &[String]) -> i32 {
                 up.push(c);
             }
             Ok(json!({"flat_wo": flat_shape(&wo.verif_dump()), "flat": flat_shape(&co.verif_dump()), "deep": deep_shape(&dd), "up": crate::term::cps(&up),
-                      "comp": comp, "steps_wo": reduce_steps(&ev_wo), "steps": reduce_steps(&ev_co)}))
+                      "comp": comp, "steps_wo": reduce_steps(&ev_wo), "steps": reduce_steps(&ev_co), "dcomp": dcomp}))
         });
         let obs = match obs {
             Ok(Ok(v)) => v,
-            _ => json!({"flat_wo": "failed", "flat": "failed", "deep": "failed", "up": "failed", "comp": "failed", "steps_wo": "failed", "steps": "failed"}),
+            _ => json!({"flat_wo": "failed", "flat": "failed", "deep": "failed", "up": "failed", "comp": "failed", "steps_wo": "failed", "steps": "failed", "dcomp": "failed"}),
         };
         let mut diff = vec![];
-        for k in ["flat_wo", "flat", "deep", "up", "comp", "steps_wo", "steps"] {
+        for k in ["flat_wo", "flat", "deep", "up", "comp", "steps_wo", "steps", "dcomp"] {
             if rec.get(k) != obs.get(k) {
                 diff.push(k);
             }
@@ -86,7 +91,7 @@ pub fn main(args: &[String]) -> i32 {
         } else {
             fwd += 1;
             if fwd <= 50 {
-                let _ = writeln!(out, "{}", json!({"text": uncps(tv), "differs": diff, "model": {"flat_wo": rec.get("flat_wo"), "flat": rec.get("flat"), "deep": rec.get("deep"), "up": rec.get("up"), "comp": rec.get("comp"), "steps_wo": rec.get("steps_wo"), "steps": rec.get("steps")}, "code": obs}));
+                let _ = writeln!(out, "{}", json!({"text": uncps(tv), "differs": diff, "model": {"flat_wo": rec.get("flat_wo"), "flat": rec.get("flat"), "deep": rec.get("deep"), "up": rec.get("up"), "comp": rec.get("comp"), "steps_wo": rec.get("steps_wo"), "steps": rec.get("steps"), "dcomp": rec.get("dcomp")}, "code": obs}));
             }
         }
     });
